@@ -1,4 +1,724 @@
 import PV.C17.Model
 import PV.C17.Spec
+/-
+  C17 — helper lemmas: decimal digit lists, rounding, text read-back, underscore stripping.
+-/
+namespace PV.Dec
+
+/-! ### decimal digits -/
+
+theorem natDigitsGo_lt10 (fuel : Nat) : ∀ (n : Nat) (acc : List Nat),
+    (∀ d ∈ acc, d < 10) → n < 10 ^ fuel → ∀ d ∈ natDigitsGo fuel n acc, d < 10 := by
+  induction fuel with
+  | zero => intro n acc hacc _; simpa [natDigitsGo] using hacc
+  | succ f ih =>
+    intro n acc hacc hn
+    unfold natDigitsGo
+    split
+    · intro d hd
+      simp at hd
+      rcases hd with rfl | hd
+      · assumption
+      · exact hacc d hd
+    · apply ih
+      · intro d hd
+        simp at hd
+        rcases hd with rfl | hd
+        · omega
+        · exact hacc d hd
+      · rw [Nat.pow_succ] at hn; omega
+
+theorem lt_ten_pow_log2 (n : Nat) : n < 10 ^ (Nat.log2 n + 1) := by
+  have h1 : n < 2 ^ (Nat.log2 n + 1) := Nat.lt_log2_self
+  have h2 : 2 ^ (Nat.log2 n + 1) ≤ 10 ^ (Nat.log2 n + 1) := Nat.pow_le_pow_left (by omega) _
+  omega
+
+theorem natDigits_lt10 (n : Nat) : ∀ d ∈ natDigits n, d < 10 :=
+  natDigitsGo_lt10 _ n [] (by simp) (lt_ten_pow_log2 n)
+
+theorem natDigitsGo_acc (fuel : Nat) : ∀ (n : Nat) (acc : List Nat),
+    natDigitsGo fuel n acc = natDigitsGo fuel n [] ++ acc := by
+  induction fuel with
+  | zero => intro n acc; simp [natDigitsGo]
+  | succ f ih =>
+    intro n acc
+    unfold natDigitsGo
+    split
+    · simp
+    · rw [ih (n / 10) (n % 10 :: acc), ih (n / 10) [n % 10]]; simp
+
+theorem ofDigits_snoc (xs : List Nat) (d : Nat) : ofDigits (xs ++ [d]) = 10 * ofDigits xs + d := by
+  simp [ofDigits, List.foldl_append]
+
+theorem natDigitsGo_value (fuel : Nat) : ∀ (n : Nat), n < 10 ^ fuel →
+    ofDigits (natDigitsGo fuel n []) = n := by
+  induction fuel with
+  | zero => intro n hn; simp at hn; subst hn; simp [natDigitsGo, ofDigits]
+  | succ f ih =>
+    intro n hn
+    unfold natDigitsGo
+    split
+    · simp [ofDigits]
+    · rw [natDigitsGo_acc, ofDigits_snoc, ih]
+      · omega
+      · rw [Nat.pow_succ] at hn; omega
+
+theorem ofDigits_natDigits (n : Nat) : ofDigits (natDigits n) = n :=
+  natDigitsGo_value _ n (lt_ten_pow_log2 n)
+
+theorem natDigits_ne_nil (n : Nat) : natDigits n ≠ [] := by
+  unfold natDigits natDigitsGo
+  split
+  · simp
+  · rw [natDigitsGo_acc]; simp
+
+
+/-! ### rounding -/
+
+/-- `roundHalfEven num den` is within half a unit of `num / den`. -/
+theorem roundHalfEven_half_unit (num den : Nat) (hd : 0 < den) :
+    2 * (roundHalfEven num den * den) ≤ 2 * num + den ∧ 2 * num ≤ 2 * (roundHalfEven num den * den) + den := by
+  have h1 := Nat.div_add_mod num den
+  have h2 := Nat.mod_lt num hd
+  unfold roundHalfEven
+  simp only
+  split
+  · rw [Nat.add_mul, Nat.mul_comm (num / den) den]; omega
+  · rw [Nat.mul_comm (num / den) den]; omega
+
+/-- on an exact tie the even neighbour is taken -/
+theorem roundHalfEven_tie_even (num den : Nat) (h : 2 * (num % den) = den) :
+    roundHalfEven num den % 2 = 0 := by
+  unfold roundHalfEven
+  simp only
+  split <;> omega
+
+/-- exact quotients are returned unchanged -/
+theorem roundHalfEven_exact (n den : Nat) (hd : 0 < den) : roundHalfEven (n * den) den = n := by
+  unfold roundHalfEven
+  simp [Nat.mul_mod_left, Nat.mul_div_cancel _ hd]
+  omega
+
+/-- `toFixedL`'s integer is within half a unit in the last place of the exact value:
+    `|mant·2^exp·10^prec − N| ≤ 1/2`, stated on the fraction `num/den = |value|`. -/
+theorem fixedInt_half_unit (bits prec : Nat) :
+    let r := ratOf (decompose bits).2.1 (decompose bits).2.2
+    2 * (fixedInt bits prec * r.2) ≤ 2 * (r.1 * 10 ^ prec) + r.2 ∧
+    2 * (r.1 * 10 ^ prec) ≤ 2 * (fixedInt bits prec * r.2) + r.2 := by
+  intro r
+  have hd : 0 < r.2 := by
+    simp only [r, ratOf]
+    split
+    · simp
+    · exact Nat.pow_pos (by omega)
+  exact roundHalfEven_half_unit _ _ hd
+
+
+/-! ### digit count -/
+
+theorem natDigitsGo_length (fuel : Nat) : ∀ n, 0 < n → n < 10 ^ fuel →
+    1 ≤ (natDigitsGo fuel n []).length ∧
+    10 ^ ((natDigitsGo fuel n []).length - 1) ≤ n ∧ n < 10 ^ (natDigitsGo fuel n []).length := by
+  induction fuel with
+  | zero => intro n h0 hn; simp at hn; omega
+  | succ f ih =>
+    intro n h0 hn
+    unfold natDigitsGo
+    split
+    · simp; omega
+    · rename_i h10
+      rw [natDigitsGo_acc]
+      have hq : n / 10 < 10 ^ f := by rw [Nat.pow_succ] at hn; omega
+      obtain ⟨h1, h2, h3⟩ := ih (n / 10) (by omega) hq
+      simp only [List.length_append, List.length_singleton, Nat.add_sub_cancel]
+      generalize (natDigitsGo f (n / 10) []).length = l at *
+      obtain ⟨l', rfl⟩ : ∃ l', l = l' + 1 := ⟨l - 1, by omega⟩
+      simp only [Nat.add_sub_cancel] at h2
+      rw [Nat.pow_succ] at h3 ⊢
+      rw [Nat.pow_succ]
+      refine ⟨by omega, by omega, by omega⟩
+
+theorem natDigits_length_spec (n : Nat) (h0 : 0 < n) :
+    1 ≤ (natDigits n).length ∧ 10 ^ ((natDigits n).length - 1) ≤ n ∧ n < 10 ^ (natDigits n).length :=
+  natDigitsGo_length _ n h0 (lt_ten_pow_log2 n)
+
+/-- a positive number in `[10^k, 10^(k+1))` has exactly `k + 1` digits -/
+theorem natDigits_length_of_bounds (n k : Nat) (h1 : 10 ^ k ≤ n) (h2 : n < 10 ^ (k + 1)) :
+    (natDigits n).length = k + 1 := by
+  have h0 : 0 < n := Nat.lt_of_lt_of_le (Nat.pow_pos (by omega)) h1
+  obtain ⟨a, b, c⟩ := natDigits_length_spec n h0
+  generalize (natDigits n).length = l at *
+  have hlt1 : 10 ^ (l - 1) < 10 ^ (k + 1) := by omega
+  have hlt2 : 10 ^ k < 10 ^ l := by omega
+  have e1 := (Nat.pow_lt_pow_iff_right (a := 10) (by omega)).1 hlt1
+  have e2 := (Nat.pow_lt_pow_iff_right (a := 10) (by omega)).1 hlt2
+  omega
+
+/-! ### decimal exponent -/
+
+theorem negLog10Go_spec (den fuel : Nat) : ∀ n j, n < den → den ≤ n * 10 ^ fuel →
+    ∃ t, negLog10Go fuel n den j = j + t + 1 ∧ den ≤ n * 10 ^ (t + 1) ∧ n * 10 ^ t < den := by
+  induction fuel with
+  | zero => intro n j h1 h2; simp at h2; omega
+  | succ f ih =>
+    intro n j h1 h2
+    unfold negLog10Go
+    split
+    · exact ⟨0, by simp, by simpa using ‹n * 10 ≥ den›, by simpa using h1⟩
+    · rename_i hlt
+      have h2' : den ≤ n * 10 * 10 ^ f := by
+        rw [Nat.pow_succ, Nat.mul_comm (10 ^ f) 10, ← Nat.mul_assoc] at h2; exact h2
+      obtain ⟨t, e1, e2, e3⟩ := ih (n * 10) (j + 1) (by omega) h2'
+      refine ⟨t + 1, by omega, ?_, ?_⟩
+      · rw [Nat.pow_succ, Nat.mul_comm (10 ^ (t + 1)) 10, ← Nat.mul_assoc]; exact e2
+      · rw [Nat.pow_succ, Nat.mul_comm (10 ^ t) 10, ← Nat.mul_assoc]; exact e3
+
+/-- `ilog10` is the decimal exponent: dividing by `10^ilog10` lands in `[1, 10)`. -/
+theorem ilog10_spec (num den : Nat) (hn : 0 < num) (hd : 0 < den) :
+    (scale10 num den (-(ilog10 num den))).2 ≤ (scale10 num den (-(ilog10 num den))).1 ∧
+    (scale10 num den (-(ilog10 num den))).1 < 10 * (scale10 num den (-(ilog10 num den))).2 := by
+  unfold ilog10
+  split
+  · rename_i hge
+    have hq : 0 < num / den := Nat.div_pos hge hd
+    obtain ⟨a, b, c⟩ := natDigits_length_spec (num / den) hq
+    generalize (natDigits (num / den)).length = l at *
+    obtain ⟨l', rfl⟩ : ∃ l', l = l' + 1 := ⟨l - 1, by omega⟩
+    simp only [Nat.add_sub_cancel] at b
+    have b' : 10 ^ l' * den ≤ num := (Nat.le_div_iff_mul_le hd).1 b
+    have c' : num < 10 ^ (l' + 1) * den := (Nat.div_lt_iff_lt_mul hd).1 c
+    rw [Nat.pow_succ] at c'
+    unfold scale10
+    by_cases hl : l' = 0
+    · subst hl; simp at b' c' ⊢; omega
+    · have : ¬ (-(((l' + 1 : Nat) : Int) - 1) ≥ 0) := by omega
+      simp only [this, if_false]
+      have e : (-(-(((l' + 1 : Nat) : Int) - 1))).toNat = l' := by omega
+      rw [e]
+      constructor
+      · rw [Nat.mul_comm]; exact b'
+      · rw [Nat.mul_comm den, ← Nat.mul_assoc, Nat.mul_comm 10]; exact c'
+  · rename_i hlt
+    have hlt : num < den := by omega
+    have hfuel : den ≤ num * 10 ^ (Nat.log2 den + 2) := by
+      have h1 : den < 2 ^ (Nat.log2 den + 1) := Nat.lt_log2_self
+      have h2 : 2 ^ (Nat.log2 den + 1) ≤ 10 ^ (Nat.log2 den + 1) := Nat.pow_le_pow_left (by omega) _
+      have h3 : 10 ^ (Nat.log2 den + 1) ≤ 10 ^ (Nat.log2 den + 2) := Nat.pow_le_pow_right (by omega) (by omega)
+      have h4 : 10 ^ (Nat.log2 den + 2) ≤ num * 10 ^ (Nat.log2 den + 2) := Nat.le_mul_of_pos_left _ hn
+      omega
+    obtain ⟨t, e1, e2, e3⟩ := negLog10Go_spec den _ num 0 hlt hfuel
+    rw [e1]
+    unfold scale10
+    have : (- -(((0 + t + 1 : Nat)) : Int)) ≥ 0 := by omega
+    simp only [this, if_true]
+    have e : (- -(((0 + t + 1 : Nat)) : Int)).toNat = t + 1 := by omega
+    rw [e]
+    refine ⟨e2, ?_⟩
+    rw [Nat.pow_succ, ← Nat.mul_assoc]; omega
+
+/-! ### monotonicity of rounding -/
+
+theorem le_roundHalfEven (num den a : Nat) (hd : 0 < den) (h : a * den ≤ num) :
+    a ≤ roundHalfEven num den := by
+  have : a ≤ num / den := (Nat.le_div_iff_mul_le hd).2 h
+  unfold roundHalfEven; simp only; split <;> omega
+
+theorem roundHalfEven_le (num den b : Nat) (hd : 0 < den) (h : num ≤ b * den) :
+    roundHalfEven num den ≤ b := by
+  have h1 := Nat.div_add_mod num den
+  have h2 := Nat.mod_lt num hd
+  have hq : num / den ≤ b := by
+    have := Nat.div_le_div_right (c := den) h
+    rwa [Nat.mul_div_cancel _ hd] at this
+  unfold roundHalfEven; simp only
+  split
+  · rename_i hup
+    by_cases hb : num / den = b
+    · rw [hb] at h1; rw [Nat.mul_comm] at h; omega
+    · omega
+  · exact hq
+
+
+/-! ### `expDigits` is well-formed -/
+
+theorem ratOf_pos (m : Nat) (e : Int) (hm : 0 < m) : 0 < (ratOf m e).1 ∧ 0 < (ratOf m e).2 := by
+  unfold ratOf
+  split
+  · exact ⟨Nat.mul_pos hm (Nat.pow_pos (by omega)), by omega⟩
+  · exact ⟨hm, Nat.pow_pos (by omega)⟩
+
+theorem scale10_den_pos (num den : Nat) (k : Int) (hd : 0 < den) : 0 < (scale10 num den k).2 := by
+  unfold scale10
+  split
+  · exact hd
+  · exact Nat.mul_pos hd (Nat.pow_pos (by omega))
+
+/-- the rounded significand of `expDigits` before digit extraction -/
+def expRound (num den prec : Nat) : Nat :=
+  roundHalfEven ((scale10 num den (-(ilog10 num den))).1 * 10 ^ prec) (scale10 num den (-(ilog10 num den))).2
+
+theorem expRound_bounds (num den prec : Nat) (hn : 0 < num) (hd : 0 < den) :
+    10 ^ prec ≤ expRound num den prec ∧ expRound num den prec ≤ 10 ^ (prec + 1) := by
+  obtain ⟨h1, h2⟩ := ilog10_spec num den hn hd
+  have hd1 := scale10_den_pos num den (-(ilog10 num den)) hd
+  unfold expRound
+  generalize (scale10 num den (-(ilog10 num den))).1 = n1 at *
+  generalize (scale10 num den (-(ilog10 num den))).2 = d1 at *
+  constructor
+  · apply le_roundHalfEven _ _ _ hd1
+    rw [Nat.mul_comm (10 ^ prec) d1]
+    exact Nat.mul_le_mul_right _ h1
+  · apply roundHalfEven_le _ _ _ hd1
+    rw [Nat.pow_succ, Nat.mul_comm (10 ^ prec) 10, Nat.mul_assoc, Nat.mul_comm (10 ^ prec) d1, ← Nat.mul_assoc]
+    exact Nat.mul_le_mul_right _ (Nat.le_of_lt h2)
+
+theorem expDigits_eq (bits prec : Nat) :
+    expDigits bits prec =
+      if (decompose bits).2.1 = 0 then (List.replicate (prec + 1) 0, 0) else
+      let r := expRound (ratOf (decompose bits).2.1 (decompose bits).2.2).1 (ratOf (decompose bits).2.1 (decompose bits).2.2).2 prec
+      let e10 := ilog10 (ratOf (decompose bits).2.1 (decompose bits).2.2).1 (ratOf (decompose bits).2.1 (decompose bits).2.2).2
+      if r ≥ 10 ^ (prec + 1) then (natDigits (r / 10), e10 + 1) else (natDigits r, e10) := by
+  unfold expDigits expRound
+  simp only [beq_iff_eq]
+
+/-- `expDigits` always yields exactly `prec + 1` decimal digits. -/
+theorem expDigits_length (bits prec : Nat) : (expDigits bits prec).1.length = prec + 1 := by
+  rw [expDigits_eq]
+  split
+  · simp
+  · rename_i hm
+    obtain ⟨hn, hd⟩ := ratOf_pos (decompose bits).2.1 (decompose bits).2.2 (by omega)
+    obtain ⟨b1, b2⟩ := expRound_bounds _ _ prec hn hd
+    simp only
+    generalize expRound _ _ prec = r at *
+    split
+    · have : r = 10 ^ (prec + 1) := by omega
+      subst this
+      have e : 10 ^ (prec + 1) / 10 = 10 ^ prec := by
+        rw [Nat.pow_succ, Nat.mul_div_cancel _ (by omega : 0 < 10)]
+      rw [e]
+      apply natDigits_length_of_bounds
+      · exact Nat.le_refl _
+      · exact Nat.pow_lt_pow_right (by omega) (by omega)
+    · apply natDigits_length_of_bounds <;> omega
+
+theorem expDigits_lt10 (bits prec : Nat) : ∀ d ∈ (expDigits bits prec).1, d < 10 := by
+  rw [expDigits_eq]
+  split
+  · intro d hd; simp at hd; omega
+  · simp only
+    split <;> exact natDigits_lt10 _
+
+end PV.Dec
+
 namespace PV.C17
+open PV.Dec PV.C17.Spec
+
+/-! ### underscore stripping -/
+
+theorem adjOk_def (a b : Nat) :
+    adjOk a b = ((b != 95 || isDigit a) && (a != 95 || isDigit b)) := rfl
+theorem isDigit_95 : isDigit 95 = false := by decide
+
+theorem stripGo_spec (s : List Nat) : ∀ (prev : Nat) (t : List Nat),
+    stripGo prev s = some t ↔
+      (pairsOk (prev :: s) = true ∧ (prev :: s).getLast? ≠ some 95 ∧ t = s.filter (· ≠ 95)) := by
+  induction s with
+  | nil =>
+    intro prev t
+    simp [stripGo, pairsOk]
+  | cons p rest ih =>
+    intro prev t
+    unfold stripGo
+    by_cases hp : p = 95
+    · subst hp
+      by_cases hd : isDigit prev = true
+      · simp [hd, ih, pairsOk, adjOk_def, List.getLast?_cons_cons]
+        intro _ _ _
+        left; intro h; rw [h] at hd; simp [isDigit_95] at hd
+      · simp [hd, pairsOk, adjOk_def]
+    · simp only [hp, if_false]
+      by_cases hq : prev = 95 ∧ isDigit p = false
+      · simp [hq, pairsOk, adjOk_def]
+      · simp only [hq, if_false, Option.map_eq_some_iff, ih]
+        have : adjOk prev p = true := by
+          simp [adjOk_def, hp]
+          by_cases h : prev = 95
+          · right; simpa [h] using hq
+          · left; exact h
+        simp [pairsOk, this, List.getLast?_cons_cons, hp]
+        constructor
+        · rintro ⟨a, ⟨h1, h2, h3⟩, rfl⟩
+          exact ⟨h1, h2, by simp [h3]⟩
+        · rintro ⟨h1, h2, rfl⟩
+          exact ⟨_, ⟨h1, h2, rfl⟩, rfl⟩
+
+
+/-! ### reading rendered digits back -/
+
+theorem isDigit_show (d : Nat) (h : d < 10) : isDigit (48 + d) = true := by
+  simp [isDigit]; omega
+
+theorem digitVals_showDigits (ds : List Nat) : digitVals (showDigits ds) = ds := by
+  induction ds with
+  | nil => rfl
+  | cons d ds ih => simp [digitVals, showDigits] at ih ⊢; exact ih
+
+/-- `spanDigits` reads back a rendered digit list up to the first non-digit -/
+theorem spanDigits_showDigits (ds : List Nat) (h : ∀ d ∈ ds, d < 10) (rest : List Nat)
+    (hr : ∀ c, rest.head? = some c → isDigit c = false) :
+    spanDigits (showDigits ds ++ rest) = (showDigits ds, rest) := by
+  induction ds with
+  | nil =>
+    simp [showDigits]
+    cases rest with
+    | nil => simp [spanDigits]
+    | cons c r => simp [spanDigits, hr c rfl]
+  | cons d ds ih =>
+    have hd : isDigit (48 + d) = true := isDigit_show d (h d (by simp))
+    have := ih (fun x hx => h x (by simp [hx]))
+    simp [showDigits] at this ⊢
+    simp [spanDigits, hd, this]
+
+theorem ofDigits_cons_zero (ds : List Nat) : ofDigits (0 :: ds) = ofDigits ds := by
+  simp [ofDigits]
+
+theorem all_lt10_expDigits (n : Nat) :
+    ∀ d ∈ (if (natDigits n).length < 2 then 0 :: natDigits n else natDigits n), d < 10 := by
+  intro d hd
+  split at hd
+  · simp at hd; rcases hd with rfl | hd
+    · omega
+    · exact natDigits_lt10 n d hd
+  · exact natDigits_lt10 n d hd
+
+/-- the exponent suffix is a sign followed by at least two digits, and reads back as `e` -/
+theorem expSuffix_shape (e : Int) :
+    ∃ sgn ds, expSuffix e = sgn :: showDigits ds ∧ (sgn = 43 ∨ sgn = 45) ∧ 2 ≤ ds.length ∧
+      (∀ d ∈ ds, d < 10) ∧ (sgn = 45 ↔ e < 0) ∧ ofDigits ds = e.natAbs := by
+  refine ⟨if e < 0 then 45 else 43, _, rfl, ?_, ?_, all_lt10_expDigits _, ?_, ?_⟩
+  · split <;> simp
+  · split
+    · have := natDigits_ne_nil e.natAbs
+      simp; cases h : natDigits e.natAbs with
+      | nil => exact absurd h this
+      | cons a b => simp
+    · omega
+  · split <;> simp [*]
+  · split
+    · rw [ofDigits_cons_zero, ofDigits_natDigits]
+    · rw [ofDigits_natDigits]
+
+theorem parseExponent_expSuffix (e : Int) : parseExponent (101 :: expSuffix e) = some e := by
+  obtain ⟨sgn, ds, h1, h2, h3, h4, h5, h6⟩ := expSuffix_shape e
+  have hne : showDigits ds ≠ [] := by
+    cases ds with
+    | nil => simp at h3
+    | cons a b => simp [showDigits]
+  have hs := spanDigits_showDigits ds h4 [] (by simp)
+  simp at hs
+  rw [h1]
+  unfold parseExponent
+  rcases h2 with rfl | rfl
+  · have : ¬ e < 0 := by intro h; have := h5.2 h; omega
+    simp [splitSign, hs, hne, digitVals_showDigits, h6]
+    omega
+  · have : e < 0 := h5.1 rfl
+    simp [splitSign, hs, hne, digitVals_showDigits, h6]
+    omega
+
+
+/-! ### hexadecimal digits -/
+
+theorem hexDigitL_eq (n : Nat) : hexDigitL n = hexDig n := rfl
+
+theorem hexFixed_zero (k : Nat) : hexFixed k 0 = List.replicate k 48 := by
+  induction k with
+  | zero => rfl
+  | succ k ih => simp [hexFixed, ih, hexDig, List.replicate_succ']
+
+theorem hexDigitsGo_acc (fuel : Nat) : ∀ (n : Nat) (acc : List Nat),
+    hexDigitsGo fuel n acc = hexDigitsGo fuel n [] ++ acc := by
+  induction fuel with
+  | zero => intro n acc; simp [hexDigitsGo]
+  | succ f ih =>
+    intro n acc
+    unfold hexDigitsGo
+    split
+    · simp
+    · rw [ih (n / 16) (_ :: acc), ih (n / 16) [_]]; simp
+
+theorem hexDigitsGo_fixed (fuel : Nat) : ∀ (k n : Nat), n < 16 ^ fuel → n < 16 ^ k → 1 ≤ k →
+    List.replicate (k - (hexDigitsGo fuel n []).length) 48 ++ hexDigitsGo fuel n [] = hexFixed k n := by
+  induction fuel with
+  | zero =>
+    intro k n hn _ _
+    simp at hn; subst hn
+    simp [hexDigitsGo, hexFixed_zero]
+  | succ f ih =>
+    intro k n hn hk h1
+    obtain ⟨k', rfl⟩ : ∃ k', k = k' + 1 := ⟨k - 1, by omega⟩
+    unfold hexDigitsGo
+    split
+    · rename_i h16
+      simp [hexFixed, Nat.div_eq_of_lt h16, Nat.mod_eq_of_lt h16, hexFixed_zero, hexDigitL_eq]
+    · rename_i h16
+      rw [hexDigitsGo_acc]
+      have hk' : 1 ≤ k' := by
+        cases k' with
+        | zero => simp at hk; omega
+        | succ j => omega
+      have hn' : n / 16 < 16 ^ f := by rw [Nat.pow_succ] at hn; omega
+      have hk2 : n / 16 < 16 ^ k' := by rw [Nat.pow_succ] at hk; omega
+      have := ih k' (n / 16) hn' hk2 hk'
+      simp only [hexFixed, List.length_append, List.length_singleton, hexDigitL_eq]
+      rw [← this]
+      simp
+
+theorem lt_sixteen_pow_log2 (n : Nat) : n < 16 ^ (Nat.log2 n + 1) := by
+  have h1 : n < 2 ^ (Nat.log2 n + 1) := Nat.lt_log2_self
+  have h2 : 2 ^ (Nat.log2 n + 1) ≤ 16 ^ (Nat.log2 n + 1) := Nat.pow_le_pow_left (by omega) _
+  omega
+
+theorem hex13_eq (n : Nat) (h : n < 2 ^ 52) : hex13 n = hexFixed 13 n :=
+  hexDigitsGo_fixed _ 13 n (lt_sixteen_pow_log2 n) (by omega) (by omega)
+
+theorem fracField_lt (bits : Nat) : fracField bits < 2 ^ 52 := Nat.mod_lt _ (by omega)
+
+
+/-! ### digit lists produced by PV.Dec -/
+
+theorem isDig_show (d : Nat) (h : d < 10) : isDig (48 + d) = true := by
+  simp [isDig]; omega
+
+theorem allDigits_showDigits (ds : List Nat) (hne : ds ≠ []) (h : ∀ d ∈ ds, d < 10) :
+    allDigits (showDigits ds) = true := by
+  simp only [allDigits, showDigits, Bool.and_eq_true, Bool.not_eq_true', List.all_eq_true]
+  constructor
+  · cases ds with
+    | nil => exact absurd rfl hne
+    | cons a b => simp
+  · intro x hx
+    simp at hx
+    obtain ⟨d, hd, rfl⟩ := hx
+    exact isDig_show d (h d hd)
+
+theorem mem_stripTrailingZeros {ds : List Nat} {x : Nat} (h : x ∈ stripTrailingZeros ds) : x ∈ ds := by
+  unfold stripTrailingZeros at h
+  rw [List.mem_reverse] at h
+  have := (List.dropWhile_sublist (fun x => x == 0) (l := ds.reverse)).subset h
+  simpa using this
+
+theorem shortest_digits_ok (bits : Nat) (tie : Bool) :
+    (shortest bits tie).1 ≠ [] ∧ ∀ d ∈ (shortest bits tie).1, d < 10 := by
+  unfold shortest
+  split
+  · simp
+  · simp only
+    split
+    · simp
+    · rename_i h
+      constructor
+      · intro h2; simp [h2] at h
+      · intro d hd
+        exact natDigits_lt10 _ d (mem_stripTrailingZeros hd)
+
+
+/-! ### shapes of the three repr layouts -/
+
+/-- digits past the decimal point exist (what `is_integer = false` means for the shortest digits) -/
+def FracDigits (bits : Nat) : Prop :=
+  (shortest bits).2 + 1 ≤ 0 ∨ ((shortest bits).2 + 1).toNat < (shortest bits).1.length
+
+theorem shortestExpL_snd (bits : Nat) : (shortestExpL bits).2 = (shortest bits).2 := by
+  unfold shortestExpL; rfl
+
+theorem signOk (b : Bool) : (if b = true then [45] else ([] : List Nat)) = [] ∨
+    (if b = true then [45] else ([] : List Nat)) = [45] := by cases b <;> simp
+
+theorem toFixedL_one_shape (bits : Nat) (hf : isFinite bits = true) : FixedShape (toFixedL bits 1) := by
+  have hn : isNan bits = false := by
+    simp only [isFinite, isNan] at *; simp at hf; simp [hf]
+  have hi : isInf bits = false := by
+    simp only [isFinite, isInf] at *; simp at hf; simp [hf]
+  unfold toFixedL
+  simp only [hn, hi]
+  generalize hds : List.replicate (1 + 1 - (natDigits (fixedInt bits 1)).length) 0 ++ natDigits (fixedInt bits 1) = ds
+  have hlen : 2 ≤ ds.length := by rw [← hds]; simp; omega
+  have hall : ∀ d ∈ ds, d < 10 := by
+    intro d hd; rw [← hds] at hd; simp at hd
+    rcases hd with ⟨_, rfl⟩ | hd
+    · omega
+    · exact natDigits_lt10 _ d hd
+  refine ⟨(if isNeg bits = true then [45] else []), showDigits (ds.take (ds.length - 1)), showDigits (ds.drop (ds.length - 1)), ?_, signOk _, ?_, ?_⟩
+  · simp
+  · apply allDigits_showDigits
+    · intro h; have := congrArg List.length h; simp at this; omega
+    · intro d hd; exact hall d (List.mem_of_mem_take hd)
+  · apply allDigits_showDigits
+    · intro h; have := congrArg List.length h; simp at this; omega
+    · intro d hd; exact hall d (List.mem_of_mem_drop hd)
+
+theorem shortestFixedL_shape (bits : Nat) (hf : isFinite bits = true) (hfd : FracDigits bits) :
+    FixedShape (shortestFixedL bits) := by
+  have hn : isNan bits = false := by
+    simp only [isFinite, isNan] at *; simp at hf; simp [hf]
+  have hi : isInf bits = false := by
+    simp only [isFinite, isInf] at *; simp at hf; simp [hf]
+  obtain ⟨hne, hall⟩ := shortest_digits_ok bits false
+  unfold shortestFixedL
+  simp only [hn, hi]
+  unfold FracDigits at hfd
+  generalize shortest bits = sh at *
+  obtain ⟨ds, e10⟩ := sh
+  simp only at hne hall hfd ⊢
+  by_cases hp : e10 + 1 ≤ 0
+  · simp only [hp, if_true]
+    refine ⟨(if isNeg bits = true then [45] else []), [48], List.replicate (-(e10 + 1)).toNat 48 ++ showDigits ds, ?_, signOk _, by decide, ?_⟩
+    · simp
+    · have := allDigits_showDigits ds hne hall
+      simp only [allDigits, Bool.and_eq_true, Bool.not_eq_true', List.all_eq_true] at this ⊢
+      constructor
+      · cases ds with
+        | nil => exact absurd rfl hne
+        | cons a b => simp [showDigits]
+      · intro x hx
+        simp at hx
+        rcases hx with ⟨_, rfl⟩ | hx
+        · decide
+        · exact this.2 x (by simpa using hx)
+  · have hlt : (e10 + 1).toNat < ds.length := by omega
+    simp only [hp, hlt, if_true, if_false]
+    refine ⟨(if isNeg bits = true then [45] else []), showDigits (ds.take (e10 + 1).toNat), showDigits (ds.drop (e10 + 1).toNat), ?_, signOk _, ?_, ?_⟩
+    · simp
+    · apply allDigits_showDigits
+      · intro h; have := congrArg List.length h
+        rw [List.length_take, List.length_nil] at this; omega
+      · intro d hd; exact hall d (List.mem_of_mem_take hd)
+    · apply allDigits_showDigits
+      · intro h; have := congrArg List.length h
+        rw [List.length_drop, List.length_nil] at this; omega
+      · intro d hd; exact hall d (List.mem_of_mem_drop hd)
+
+theorem exp_shape (bits : Nat) : ExpShape ((shortestExpL bits).1 ++ [101] ++ expSuffix (shortestExpL bits).2) := by
+  obtain ⟨hne, hall⟩ := shortest_digits_ok bits false
+  obtain ⟨sgn, xs, h1, h2, h3, h4, _, _⟩ := expSuffix_shape (shortestExpL bits).2
+  rw [h1]
+  unfold shortestExpL
+  generalize shortest bits = sh at *
+  obtain ⟨ds, e10⟩ := sh
+  simp only at hne hall ⊢
+  have hx : allDigits (showDigits xs) = true :=
+    allDigits_showDigits xs (by intro h; simp [h] at h3) h4
+  match ds, hne, hall with
+  | [d], _, hall =>
+    refine ⟨(if isNeg bits = true then [45] else []), 48 + d, [], sgn, showDigits xs, by simp, signOk _, isDig_show d (hall d (by simp)),
+      Or.inl rfl, h2, hx, by simpa [showDigits] using h3⟩
+  | d :: d2 :: rest, _, hall =>
+    refine ⟨(if isNeg bits = true then [45] else []), 48 + d, 46 :: showDigits (d2 :: rest), sgn, showDigits xs, by simp, signOk _,
+      isDig_show d (hall d (by simp)), Or.inr ⟨_, rfl, ?_⟩, h2, hx, by simpa [showDigits] using h3⟩
+    exact allDigits_showDigits _ (by simp) (fun x hx => hall x (by simp at hx ⊢; right; exact hx))
+
+
+/-! ### printf-style renderers -/
+
+
+theorem expSuffix_eq_pyExp (e : Int) : expSuffix e = pyExp e := by
+  unfold expSuffix pyExp
+  have hne := natDigits_ne_nil e.natAbs
+  simp only
+  congr 2
+  split
+  · rename_i h
+    have : (natDigits e.natAbs).length = 1 := by
+      cases hh : natDigits e.natAbs with
+      | nil => exact absurd hh hne
+      | cons a b => rw [hh] at h; simp only [List.length_cons] at h ⊢; omega
+    rw [this]; rfl
+  · rename_i h
+    have : 2 - (natDigits e.natAbs).length = 0 := by omega
+    rw [this]; rfl
+
+theorem finite_not_nan {bits : Nat} (hf : isFinite bits = true) : isNan bits = false := by
+  simp only [isFinite, isNan] at *; simp at hf; simp [hf]
+theorem finite_not_inf {bits : Nat} (hf : isFinite bits = true) : isInf bits = false := by
+  simp only [isFinite, isInf] at *; simp at hf; simp [hf]
+theorem not_finite_nan_or_inf {bits : Nat} (hf : isFinite bits = false) :
+    isNan bits = false → isInf bits = true := by
+  simp only [isFinite, isNan, isInf] at *
+  simp at hf
+  simp [hf]
+
+theorem special_eq (bits : Nat) (upper : Bool) (hf : isFinite bits = false) (hs : isNeg bits = false) :
+    (if isNan bits then formatNan upper else formatInf upper) = special bits upper := by
+  unfold special formatNan formatInf
+  by_cases hn : isNan bits = true
+  · cases upper <;> simp [hn, hs]
+  · cases upper <;> simp [hn, hs]
+
+
+theorem showDigits_append (a b : List Nat) : showDigits (a ++ b) = showDigits a ++ showDigits b := by
+  simp [showDigits]
+theorem showDigits_reverse (a : List Nat) : showDigits a.reverse = (showDigits a).reverse := by
+  simp [showDigits]
+
+/-- dropping `'0'` characters from the reversed text = dropping zero digits -/
+theorem dropWhile_zero_chars (fr : List Nat) (tail : List Nat) :
+    (showDigits fr ++ 46 :: tail).dropWhile (· = 48) =
+      showDigits (fr.dropWhile (· == 0)) ++ 46 :: tail := by
+  induction fr with
+  | nil => simp [showDigits]
+  | cons d r ih =>
+    by_cases hd : d = 0
+    · subst hd; simpa [showDigits] using ih
+    · have : ¬ (48 + d = 48) := by omega
+      simp [showDigits, List.dropWhile_cons, this, hd]
+
+theorem strip_with_point (A fp : List Nat) :
+    removeTrailingDecimalPoint (removeTrailingZeros (A ++ 46 :: showDigits fp)) =
+      A ++ (if (dropTrailingZeroDigits fp).isEmpty then [] else 46 :: showDigits (dropTrailingZeroDigits fp)) := by
+  unfold removeTrailingZeros dropTrailingZeroDigits
+  have h1 : (A ++ 46 :: showDigits fp).reverse = showDigits fp.reverse ++ 46 :: A.reverse := by
+    simp [showDigits_reverse]
+  rw [h1, dropWhile_zero_chars]
+  generalize fp.reverse.dropWhile (· == 0) = s
+  cases s with
+  | nil => simp [showDigits, removeTrailingDecimalPoint]
+  | cons d r =>
+    have : ¬ (48 + d = 46) := by omega
+    simp [showDigits, removeTrailingDecimalPoint, List.reverse_cons]
+    rw [show (List.map (fun x => 48 + x) r).reverse ++ [48 + d] = ((48 + d) :: (List.map (fun x => 48 + x) r)).reverse by simp]
+    split
+    · rename_i heq; simp at heq; omega
+    · simp
+
+theorem showDigits_no_point (ds : List Nat) : (showDigits ds).contains 46 = false := by
+  induction ds with
+  | nil => rfl
+  | cons d r ih =>
+    have : ¬ (46 = 48 + d) := by omega
+    simp only [showDigits, List.map_cons, List.contains_cons, Bool.or_eq_false_iff] at ih ⊢
+    exact ⟨by simpa using this, ih⟩
+
+theorem contains_point (A B : List Nat) : (A ++ 46 :: B).contains 46 = true := by
+  simp
+
+/-- `maybe_remove_trailing_redundant_chars` on digits-point-digits text, in terms of digits -/
+theorem maybeRemove_point (ip fp : List Nat) (alt : Bool) :
+    maybeRemoveTrailingRedundantChars (showDigits ip ++ 46 :: showDigits fp) alt =
+      if alt then showDigits ip ++ 46 :: showDigits fp
+      else showDigits ip ++
+        (if (dropTrailingZeroDigits fp).isEmpty then [] else 46 :: showDigits (dropTrailingZeroDigits fp)) := by
+  unfold maybeRemoveTrailingRedundantChars
+  cases alt
+  · simp only [Bool.not_false, contains_point, and_self, if_true, Bool.false_eq_true, if_false]
+    exact strip_with_point _ _
+  · simp
+
+theorem maybeRemove_nopoint (ip : List Nat) (alt : Bool) :
+    maybeRemoveTrailingRedundantChars (showDigits ip) alt = showDigits ip := by
+  unfold maybeRemoveTrailingRedundantChars
+  rw [showDigits_no_point]
+  simp
+
 end PV.C17
